@@ -389,3 +389,33 @@ CHECKS["C19"] = dict(
     design_ref="DESIGN.md 9/C19",
     level_text="Exhaustive within bounds on the real iterators.",
 )
+
+def _seq_units():
+    out = []
+    spec = [("harness/sets_lists.cpp", "lists", [1, 2, 3, 4, 5, 6, 7], None), ("harness/sets_hash.cpp", "hash", [1, 2, 3, 4, 5], None),
+            ("harness/sets_trees.cpp", "trees", [1, 2, 3, 4, 5], None), ("harness/sets_lock.cpp", "lock", [1, 2, 3], None),
+            ("harness/queues.cpp", "queues", [1, 2, 3, 4], BOOST), ("harness/stacks.cpp", "stacks", [1, 2, 3], BOOST)]
+    for src, short, fams, ld in spec:
+        for f in fams:
+            u = dict(name="seq-%s%d" % (short, f), src=src, cxxflags=["-DFAMILY=%d" % f], args=["--property", "C20"])
+            if ld: u["ldflags"] = ld
+            out.append(u)
+    out.append(dict(name="seq-pq", src="harness/pq.cpp", ldflags=BOOST, args=["--property", "C20"]))
+    out.append(dict(name="seq-bounded", src="harness/bounded.cpp", args=["--property", "C20"]))
+    return out
+
+CHECKS["C20"] = dict(
+    title="single-threaded API vs reference model",
+    units=_seq_units(),
+    rule="seqmc: every sequence of API calls up to depth d (quick 3, thorough 4 for sets and maps; 5..8 for queues, stacks, deques, priority queues) over the container's whole operation alphabet on colliding keys, from "
+         "the empty container and from a populated start state (one that has already grown its table / split slots / filled the ring), each replayed on a fresh container; one engine 'execution' is one "
+         "(variant, start state, first operation) subtree; aux counters give the number of sequences and operations",
+    aux_names=["unused", "sequences_replayed", "operations_checked", "aux3"],
+    explanation="all set/map variants of C13-C16 (lists, hash sets, skip lists, trees, cuckoo/striped sets; HP, DHP, RCU, nogc; container and intrusive classes) against std::map, the queues of C06/C07 against (bounded) "
+                "std::deque, stacks and FCDeque against std::vector/std::deque, priority queues against std::priority_queue: after every call the return value (incl. the update() pair), the value seen by find/erase/"
+                "extract functors, the number of insert/update functor calls and the update functor's new-item flag are compared with the model; after every call on a set the membership and value of every key of the "
+                "universe, size(), empty() and the traversal are compared too, extract_min/extract_max must return the exact extreme key; queues are drained at the end of every sequence; intrusive variants: every "
+                "inserted item is disposed exactly once by the end, refused items never; clear() is part of the alphabet",
+    design_ref="DESIGN.md 5, 9/C20",
+    level_text="Exhaustive over all call sequences up to the stated depth on the real single-threaded API.",
+)
